@@ -51,11 +51,14 @@ class Ctx:
         self.kf_hits = Counter()
         self.hook_events = 0
         self.notes = Counter()
-        self._case = None
+        self.deadline = None
 
     # -- library calls ----------------------------------------------------
     def call(self, fn, *a, timeout=10.0, **k):
         self.calls += 1
+        if sum(self.timeouts.values()) >= 3:
+            # a hanging tree: keep the campaign bounded (timeouts are inconclusive anyway)
+            timeout = min(timeout, 1.0)
         out = iso.call(fn, *a, timeout=timeout, **k)
         name = getattr(fn, "__name__", str(fn))
         if out.status == "timeout":
@@ -145,7 +148,13 @@ def _classify(failures, kf, ctx):
     return new
 
 
+WALL_BUDGET_S = {"quick": 150.0, "thorough": 1500.0}
+
+
 def run_check(unit, case, ctx):
+    if ctx.deadline is not None and time.time() > ctx.deadline:
+        ctx.notes["skipped-after-wall-budget"] += 1
+        return []
     reset_global_state()
     ctx.evaluations += 1
     try:
@@ -156,7 +165,7 @@ def run_check(unit, case, ctx):
     return fails or []
 
 
-SHRINK_BUDGET_S = 60.0
+SHRINK_BUDGET_S = 25.0
 
 
 def run_hyp_unit(unit, tier, verif_seed, shard, nshards, kf):
@@ -164,6 +173,7 @@ def run_hyp_unit(unit, tier, verif_seed, shard, nshards, kf):
     from hypothesis import errors as herr
 
     ctx = Ctx(unit.name)
+    ctx.deadline = time.time() + WALL_BUDGET_S[tier]
     found = []          # list of Failure (shrunk), distinct keys
     muted = set()
     n_ex = max(1, unit.n_examples(tier) // nshards)
@@ -223,6 +233,7 @@ def run_hyp_unit(unit, tier, verif_seed, shard, nshards, kf):
 
 def run_exh_unit(unit, tier, verif_seed, shard, nshards, kf):
     ctx = Ctx(unit.name)
+    ctx.deadline = time.time() + WALL_BUDGET_S[tier]
     total = unit.count(tier)
     lo = total * shard // nshards
     hi = total * (shard + 1) // nshards
